@@ -11,6 +11,7 @@ import (
 	"hash/fnv"
 	"os"
 	"sort"
+	"strings"
 	"sync"
 )
 
@@ -39,6 +40,7 @@ type Rec struct {
 	distinct     map[uint64]struct{}
 	maxSamples   int
 	progress     *os.File
+	violLog      *os.File
 }
 
 func New(prop, config, shard string, seed int64) *Rec {
@@ -54,6 +56,11 @@ func (r *Rec) SetProgress(path string) {
 	f, err := os.Create(path)
 	if err == nil {
 		r.progress = f
+	}
+	// violation records are also streamed to disk as they occur, so that a
+	// later hang or crash of the shard does not lose them
+	if v, err := os.Create(strings.TrimSuffix(path, ".about") + ".viol"); err == nil {
+		r.violLog = v
 	}
 }
 
@@ -122,7 +129,14 @@ func (r *Rec) Violate(sub, what, sig string, c map[string]interface{}) {
 	r.mu.Lock()
 	r.NViolations++
 	if len(r.Violations) < 25 {
-		r.Violations = append(r.Violations, Violation{Property: r.Property, Sub: sub, Config: r.Config, What: what, Sig: sig, Case: c})
+		v := Violation{Property: r.Property, Sub: sub, Config: r.Config, What: what, Sig: sig, Case: c}
+		r.Violations = append(r.Violations, v)
+		if r.violLog != nil {
+			if b, err := json.Marshal(v); err == nil {
+				r.violLog.Write(append(b, '\n'))
+				r.violLog.Sync()
+			}
+		}
 	}
 	r.mu.Unlock()
 }
